@@ -54,6 +54,18 @@ def plan(tier):
             implicit = "true" if (rep not in INT_MAX or K >= 10 ** 6) else "false"
             inst.append({"id": iid, "kind": "inv", "code": f'vfm15::Inv<{src}, {rep}, {dst}, {implicit}>::run(ID, "inverse {src}->{dst}:{rep} K={K}", {K}ull, {K}.0L, nrandom, seed ^ ID);'})
             iid += 1
+    # explicit-rep inversion with a target rep other than the source rep
+    mixed = [("double", "int64_t"), ("float", "int32_t"), ("double", "int32_t"), ("float", "int64_t"), ("int32_t", "double"), ("int64_t", "float"), ("float", "double"), ("double", "float"),
+             ("int32_t", "int64_t"), ("int64_t", "int32_t"), ("double", "uint64_t"), ("uint32_t", "int64_t")]
+    mcases = [c for c in inv_cases if c[2] in (10 ** 3, 10 ** 6, 10 ** 9, 10 ** 12, 20000, 65536, 999999, 16777216)]
+    rnd.shuffle(mcases)
+    for src, dst, K in mcases[: (10 if tier == "quick" else 60)]:
+        for r, t in (rnd.sample(mixed, 4) if tier == "quick" else mixed):
+            cmax = max(INT_MAX.get(r, 0), INT_MAX.get(t, 0))
+            if r in INT_MAX and t in INT_MAX and K > cmax:
+                continue
+            inst.append({"id": iid, "kind": "invmixed", "code": f'vfm15::run_inv_mixed<{src}, {r}, {dst}, {t}>(ID, "inverse<{t}> {src}:{r}->{dst} K={K}", {K}.0L, nrandom, seed ^ ID);'})
+            iid += 1
     for au_, f, ident in TRIG:
         for rep in ("double", "float", "int32_t", "int16_t"):
             inst.append({"id": iid, "kind": "trig", "code": f'vfm15::run_trig<{au_}, {rep}>(ID, "trig {au_}:{rep}", {f}, {"true" if ident and rep in ("double", "float") else "false"}, nrandom, seed ^ ID);'})
